@@ -307,6 +307,22 @@ func (e *Engine) callFunc(fr *frame, ins ssa.Instruction, fn *ssa.Function, args
 		e.pendingWrites = append(e.pendingWrites, keys)
 		return e.havocResult(resT, "abs_"+fn.Name()), reach
 	}
+	if e.pure && e.onStack(fn) {
+		// recursive spec function: an uninterpreted application (its defining equation is
+		// emitted once per outermost call, see below)
+		return e.recApp(fn, args, resT, heap), reach
+	}
+	if e.pure && e.isRecursive(fn) && len(e.sc.binders) >= 0 {
+		r := e.recApp(fn, args, resT, heap)
+		key := "unfold|" + fmt.Sprint(r)
+		if !e.litFacts[key] {
+			e.litFacts[key] = true
+			e.inlined[name+" (recursive spec function: unfolded once per call)"]++
+			body := e.execFunction(fn, args, bind, "true", heap)
+			e.assumeEqVal(r, body.ret, resT)
+		}
+		return r, reach
+	}
 	e.inlined[name]++
 	// memoise pure spec functions on identical arguments and heap
 	memoKey := ""
@@ -392,7 +408,12 @@ func (e *Engine) callByContract(fr *frame, ins ssa.Instruction, fn *ssa.Function
 	// havoc what the callee may assign (frame), then assume its ensures
 	e.havocAssigns(c, fn, args, heap)
 	var res Val
-	if c.Options["pure"] {
+	if in := e.pureIfaceFor(fn); in != nil {
+		// the concrete method is an implementation of a pure interface method: its results
+		// are that interface function applied to the receiver boxed as an interface value
+		rt := fn.Signature.Recv().Type()
+		res = e.ifacePureResult(in, fn.Name(), e.makeIface(args[0], rt), in, args[1:], fn.Signature, resT)
+	} else if c.Options["pure"] {
 		// a pure function: its results are a function of its arguments and of the heap it
 		// is called in (identified by a fingerprint of the current heap terms)
 		res = e.pureResult(fn, args, resT, heap)
@@ -619,6 +640,20 @@ func (e *Engine) invoke(fr *frame, ins ssa.Instruction, cc *ssa.CallCommon, recv
 					e.warnOnce("interface values are assumed never to hold typed nil pointers")
 				}
 				return e.callFunc(fr, ins, fn, append([]Val{rv}, args...), nil, resT, reach, heap, cc)
+			}
+		}
+	}
+	// a contract on the interface method itself (e.g. "(Exp).Eval"): assumed for every implementation
+	if named, ok := cc.Value.Type().(*types.Named); ok && named.Obj().Pkg() != nil {
+		id := named.Obj().Pkg().Path() + ".(" + named.Obj().Name() + ")." + mname
+		if c := e.w.Contracts[id]; c != nil && c.Broken == "" {
+			e.usedContracts[id+" (interface contract, assumed for all implementations)"]++
+			if c.Options["pure"] {
+				// the value depends on the receiver and the arguments only: the state such a method
+				// reads (the expression tree, the environment's tables) is not written by the
+				// functions that call it under contract (their frame obligations show that). The
+				// results are applications of uninterpreted functions to the argument values.
+				return e.ifacePureResult(named, mname, recv, cc.Value.Type(), args, cc.Method.Type().(*types.Signature), resT), reach
 			}
 		}
 	}
@@ -919,7 +954,7 @@ func (e *Engine) pureResult(fn *ssa.Function, args []Val, resT types.Type, heap 
 			dh[k] = v
 		}
 	}
-	key := fmt.Sprintf("pure|%p|%v|%s", fn, args, heapFingerprint(dh))
+	key := fmt.Sprintf("pure|%p|%s|%s", fn, e.canonVals(args), heapFingerprint(dh))
 	if r, ok := e.pureMemo[key]; ok {
 		return r
 	}
@@ -1135,4 +1170,225 @@ func (e *Engine) addressTakenFuncs(sig *types.Signature) []*ssa.Function {
 	sort.Slice(res, func(i, j int) bool { return res[i].String() < res[j].String() })
 	e.w.dynCache.Store(key, res)
 	return res
+}
+
+func (e *Engine) onStack(fn *ssa.Function) bool {
+	for _, s := range e.stack {
+		if s == fn {
+			return true
+		}
+	}
+	return false
+}
+
+// isRecursive: fn calls itself directly (spec functions only).
+func (e *Engine) isRecursive(fn *ssa.Function) bool {
+	if r, ok := e.recMemo[fn]; ok {
+		return r
+	}
+	rec := false
+	for _, b := range fn.Blocks {
+		for _, ins := range b.Instrs {
+			if c, ok := ins.(*ssa.Call); ok && c.Call.StaticCallee() == fn {
+				rec = true
+			}
+		}
+	}
+	e.recMemo[fn] = rec
+	return rec
+}
+
+// recApp is the uninterpreted application standing for a call of a recursive spec
+// function in the given heap.
+func (e *Engine) recApp(fn *ssa.Function, args []Val, resT types.Type, heap Heap) Val {
+	var leaves []string
+	var sorts []string
+	for i, a := range args {
+		for _, l := range e.leavesOfAny(a, fn.Params[i].Type()) {
+			leaves = append(leaves, l.T)
+			sorts = append(sorts, l.S)
+		}
+	}
+	// the function's value can only change when objects that existed at entry are written
+	hid := e.dirtyHeapID(heap)
+	rs, ok := scalarSort(resT)
+	if !ok {
+		fail("recursive spec function %s must return a scalar", fn.Name())
+	}
+	name := fmt.Sprintf("rec_%s_h%d", sanitize(fn.Name()), hid)
+	e.sc.declareFun(name, sorts, rs)
+	if len(leaves) == 0 {
+		return Sc{"(" + name + ")", rs}
+	}
+	return Sc{app(name, leaves...), rs}
+}
+
+func (e *Engine) heapID(h Heap) int {
+	fp := heapFingerprint(h)
+	if id, ok := e.epochs["heap|"+fp]; ok {
+		return id
+	}
+	id := len(e.epochs) + 1
+	e.epochs["heap|"+fp] = id
+	return id
+}
+
+// leavesOfAny flattens a value into scalars (with sorts).
+func (e *Engine) leavesOfAny(v Val, t types.Type) []Sc {
+	switch x := v.(type) {
+	case Sc:
+		return []Sc{x}
+	case PtrVal:
+		return []Sc{e.ptrScalar(x)}
+	case SliceVal:
+		return []Sc{{x.Arr, SRef}, {x.Off, SI64}, {x.Len, SI64}}
+	case IfaceVal:
+		return []Sc{{x.Tag, STag}, {x.Ref, SRef}, {x.Str, SStr}, {x.BV, SI64}}
+	case StructVal:
+		st := under(t).(*types.Struct)
+		var r []Sc
+		for i, f := range x.F {
+			r = append(r, e.leavesOfAny(f, st.Field(i).Type())...)
+		}
+		return r
+	case FuncVal:
+		return []Sc{e.scalar(x)}
+	}
+	fail("cannot flatten %T", v)
+	return nil
+}
+
+func (e *Engine) assumeEqVal(a, b Val, t types.Type) {
+	la, lb := e.leavesOfAny(a, t), e.leavesOfAny(b, t)
+	for i := range la {
+		e.sc.assume(eq(la[i].T, lb[i].T))
+	}
+}
+
+func (e *Engine) dirtyHeapID(heap Heap) int {
+	dh := Heap{}
+	for k, v := range heap {
+		if e.dirty[k] {
+			dh[k] = v
+		}
+	}
+	return e.heapID(dh)
+}
+
+// canonVals renders values with all definitions expanded.
+func (e *Engine) canonVals(vs []Val) string {
+	var b strings.Builder
+	var walk func(v Val)
+	walk = func(v Val) {
+		switch x := v.(type) {
+		case Sc:
+			b.WriteString(e.sc.canon(x.T))
+		case PtrVal:
+			b.WriteString(e.sc.canon(x.Base))
+			for _, p := range x.Path {
+				fmt.Fprintf(&b, ".%d%s", p.field, e.sc.canon(p.idx))
+			}
+		case SliceVal:
+			b.WriteString(e.sc.canon(x.Arr) + "," + e.sc.canon(x.Off) + "," + e.sc.canon(x.Len))
+		case IfaceVal:
+			b.WriteString(e.sc.canon(x.Tag) + "," + e.sc.canon(x.Ref) + "," + e.sc.canon(x.Str) + "," + e.sc.canon(x.BV))
+		case StructVal:
+			for _, f := range x.F {
+				walk(f)
+				b.WriteByte(';')
+			}
+		case TupleVal:
+			for _, f := range x {
+				walk(f)
+				b.WriteByte(';')
+			}
+		default:
+			fmt.Fprintf(&b, "%v", v)
+		}
+		b.WriteByte('|')
+	}
+	for _, v := range vs {
+		walk(v)
+	}
+	return b.String()
+}
+
+// ifacePureResult: the results of a pure interface method as applications of
+// uninterpreted functions (one per scalar leaf of the results) to the receiver
+// (as an interface value) and the arguments.
+func (e *Engine) ifacePureResult(named *types.Named, mname string, recv Val, recvT types.Type, args []Val, msig *types.Signature, resT types.Type) Val {
+	var leaves, sorts []string
+	for _, l := range e.leavesOfAny(recv, recvT) {
+		leaves = append(leaves, l.T)
+		sorts = append(sorts, l.S)
+	}
+	for i, a := range args {
+		for _, l := range e.leavesOfAny(a, msig.Params().At(i).Type()) {
+			leaves = append(leaves, l.T)
+			sorts = append(sorts, l.S)
+		}
+	}
+	n := 0
+	mk := func(sort string) string {
+		name := fmt.Sprintf("ifn_%s_%s_%d", sanitize(named.Obj().Name()), mname, n)
+		n++
+		e.sc.declareFun(name, sorts, sort)
+		return app(name, leaves...)
+	}
+	var build func(t types.Type) Val
+	build = func(t types.Type) Val {
+		if s, ok := scalarSort(t); ok {
+			return Sc{mk(s), s}
+		}
+		switch u := under(t).(type) {
+		case *types.Interface:
+			return IfaceVal{mk(STag), mk(SRef), mk(SStr), mk(SI64)}
+		case *types.Slice:
+			return SliceVal{mk(SRef), mk(SI64), mk(SI64)}
+		case *types.Struct:
+			sv := StructVal{}
+			for i := 0; i < u.NumFields(); i++ {
+				sv.F = append(sv.F, build(u.Field(i).Type()))
+			}
+			return sv
+		}
+		fail("pure interface method result of type %s", t)
+		return nil
+	}
+	if tup, ok := resT.(*types.Tuple); ok {
+		var tv TupleVal
+		for i := 0; i < tup.Len(); i++ {
+			tv = append(tv, build(tup.At(i).Type()))
+		}
+		return tv
+	}
+	if resT != nil {
+		return build(resT)
+	}
+	return nil
+}
+
+// pureIfaceFor: if fn is a method whose receiver type implements an interface of its
+// package that carries a pure contract for this method, return that interface.
+func (e *Engine) pureIfaceFor(fn *ssa.Function) *types.Named {
+	if fn.Signature.Recv() == nil || fn.Pkg == nil {
+		return nil
+	}
+	rt := fn.Signature.Recv().Type()
+	sc := fn.Pkg.Pkg.Scope()
+	for _, n := range sc.Names() {
+		tn, ok := sc.Lookup(n).(*types.TypeName)
+		if !ok {
+			continue
+		}
+		it, ok := tn.Type().Underlying().(*types.Interface)
+		if !ok {
+			continue
+		}
+		id := fn.Pkg.Pkg.Path() + ".(" + tn.Name() + ")." + fn.Name()
+		if c := e.w.Contracts[id]; c != nil && c.Options["pure"] && types.Implements(rt, it) {
+			return tn.Type().(*types.Named)
+		}
+	}
+	return nil
 }
